@@ -1,2 +1,3 @@
+pub mod call;
 pub mod collect;
 pub mod present;
